@@ -29,6 +29,8 @@ where
     // Unlike our UpdateConfig lock, our UpdaterThread lock does not wait
     // if an updater thread is already running. We use try_lock instead
     // of lock to error out immediately.
+    #[cfg(feature = "verif-hooks")]
+    crate::verif::sync_event(crate::verif::SyncEvent::UpdBefore);
     let lock = updater_lock().try_lock();
     #[cfg(feature = "verif-hooks")]
     crate::verif::sync_event(crate::verif::SyncEvent::UpdTry(lock.is_ok()));
